@@ -37,8 +37,8 @@ CONSTANTS
   MaxEnv,      \* bound on environment actions
   Total,       \* total voting power of the set in force (the driver's chains use 5 and 8: both = 2 mod 3)
   Urgent,      \* see above
-  Guarded      \* TRUE: VerifyCommit refuses a nil commit (843327f) and votes that do not carry their slot's validator
-               \*       index/address (1551b96); FALSE: the behaviour before these commits
+  Guarded      \* TRUE: VerifyCommit refuses a nil commit (5947eb3) and votes that do not carry their slot's validator
+               \*       index/address (03aa329); FALSE: the behaviour before these commits
 
 None   == "none"
 Absent == -1
@@ -70,12 +70,12 @@ Quorum   == (2 * Total) \div 3 + 1        \* smallest power that is more than 2/
 Boundary == Quorum - 1                    \* largest power that is NOT more than 2/3
 
 \* voting power of the valid precommits, for exactly the previous (true) block, that VerifyCommit can count in the
-\* LastCommit of a block of class c; -1 = VerifyCommit panics (nil commit before 843327f)
+\* LastCommit of a block of class c; -1 = VerifyCommit panics (nil commit before 5947eb3)
 Tallied(c) ==
   CASE c \in {"good", "body", "subvotes"} -> Quorum         \* a minimal +2/3 commit (canonical or another one)
     [] c = "boundaryvotes"                -> Boundary
     [] c = "fewvotes"                     -> Boundary - 1     \* at most (votes removed / other epoch's quorum / bad signature ...)
-    [] c = "voteidx"                      -> IF Guarded THEN 0 ELSE Total   \* the whole commit is refused (1551b96)
+    [] c = "voteidx"                      -> IF Guarded THEN 0 ELSE Total   \* the whole commit is refused (03aa329)
     [] c = "nilpart"                      -> IF Guarded THEN 0 ELSE -1
     [] OTHER                              -> 0
 
